@@ -43,8 +43,8 @@ def build_script(steps, cuts, first_eager, b2b):
     return actions
 
 
-def observe(role, steps, cuts, first_eager=False, b2b=False, budget=20000):
-    sim = simnet.run_scenario(role, build_script(steps, cuts, first_eager, b2b), budget=budget)
+def observe(role, steps, cuts, first_eager=False, b2b=False, budget=20000, max_pdu=65536):
+    sim = simnet.run_scenario(role, build_script(steps, cuts, first_eager, b2b), budget=budget, max_pdu=max_pdu)
     out = sim.outcome
     return {
         'outcome': out[0] if out[0] != 'exception' else 'exception:' + lib_frame(out[1]),
@@ -117,6 +117,24 @@ def run_variant(ctx, name, role, steps, base, cuts, first_eager, b2b, label):
 MODES = [(False, False), (True, True), (True, False), (False, True)]
 
 
+def run_read_sizes(ctx, name, role, steps, base):
+    """The provider reads with its own maximum PDU length as the buffer size.  Make a read return EXACTLY that
+    many bytes with nothing further pending (the peer waits for an answer): read size = the length of a PDU
+    (or half / a third of it), one PDU per segment, each after quiescence."""
+    lengths = sorted({len(p) for s_ in steps if s_[0] == 'burst' for p in s_[1]})
+    sizes = set()
+    for n in lengths:
+        sizes.update(x for x in (n, n // 2 if n % 2 == 0 else 0, n // 3 if n % 3 == 0 else 0) if x >= 6)
+    for size in sorted(sizes):
+        case = {'conv': name, 'read_size': size}
+        ctx.case((name, 'read-size', size), True, labels=['exact-read-size', 'conv=' + name], sample=case)
+        got = observe(role, steps, None, max_pdu=size)
+        try:
+            compare(name + ' (read size %d)' % size, base, got, case)
+        except Violation as v:
+            ctx.fail(v.key, v.what, v.case)
+
+
 def run_conv(ctx, job):
     warnings.simplefilter('ignore')
     name = job['conv']
@@ -127,6 +145,7 @@ def run_conv(ctx, job):
                  '%s: reference delivery itself ended with %s %s' % (name, base['outcome'], base['detail']),
                  {'conv': name, 'cuts': None, 'first_eager': False, 'b2b': False})
     info = burst_info(steps)
+    run_read_sizes(ctx, name, role, steps, base)
     # whole bursts at once / one-byte dribble
     for fe, b2b in MODES:
         run_variant(ctx, name, role, steps, base, {}, fe, b2b, 'burst-at-once')
@@ -266,7 +285,7 @@ def run_generated(ctx, n):
 
     @st.composite
     def strat(draw):
-        role, hist = draw(walk(max_len=16))
+        role, hist, _own = draw(walk(max_len=16))
         cuts = [draw(st.lists(st.integers(1, 4000), min_size=0, max_size=5)) for _ in range(8)]
         return role, hist, cuts, draw(st.booleans())
 
@@ -294,7 +313,7 @@ def run(ctx):
     warnings.simplefilter('ignore')
     corpus = convs.corpus()
     ctx.rule = ('for each of %d conversations (both roles): whole-burst, one-byte dribble, every single cut '
-                'offset, pairs of cut offsets, Hypothesis k-cuts (k<=8); Hypothesis-generated conversations (the random walks of C05) re-cut at random offsets; two long pipelined streams (> 64 KiB, incl. 30 kB PDUs) in chunks of 100..65536 bytes; x first segment already waiting or not x '
+                'offset, pairs of cut offsets, Hypothesis k-cuts (k<=8); the read size of the provider set to exactly the length (a half, a third) of each PDU of the conversation; Hypothesis-generated conversations (the random walks of C05) re-cut at random offsets; two long pipelined streams (> 64 KiB, incl. 30 kB PDUs) in chunks of 100..65536 bytes; x first segment already waiting or not x '
                 'segments back-to-back or each after quiescence; cuts are applied inside the byte string the peer '
                 'sends between two local actions; compared with one-PDU-per-segment delivery; non-trivial = a cut '
                 'falls strictly inside a PDU or >=2 PDUs share a segment; distinct by (conversation, cuts, modes)'
@@ -333,6 +352,9 @@ def replay(case):
         return
     role, steps = convs.corpus()[case['conv']]
     base = observe(role, steps, None)
+    if 'read_size' in case:
+        compare(case['conv'], base, observe(role, steps, None, max_pdu=case['read_size']), case)
+        return
     if case['cuts'] is None:
         if base['outcome'] != 'returned':
             raise Violation('C03:baseline:%s' % base['outcome'], base['detail'], case)
